@@ -130,7 +130,7 @@ func RunCrashChild(dir string, ops []string) (*CrashRun, error) {
 	}()
 	select {
 	case <-done:
-	case <-time.After(60 * time.Second):
+	case <-time.After(15 * time.Minute): // generous: the machine may be heavily loaded
 	}
 	cmd.Process.Signal(syscall.SIGKILL)
 	cmd.Wait()
